@@ -13,7 +13,7 @@ extern void of_galois_field_2_8_addmul1 (gf *dst1, gf *src1, gf c, int sz);
 extern void of_galois_field_2_4_addmul1 (gf *dst1, gf *src1, gf c, int sz);
 extern void of_galois_field_2_4_addmul1_compact (gf *dst1, gf *src1, gf c, int sz);
 
-#define MAXOPER 21
+#define MAXOPER 304
 #define GUARD 24
 static int st_states, st_trans, st_exec, st_dn;
 static int SIZES[400], NSIZES;
@@ -49,8 +49,9 @@ static void oper_free (oper_t *o) { free (o->blk); }
 
 static unsigned char pat (int which, int operand, int j, int size)
 {
-	if (which == 0) return (unsigned char) (j * 37 + operand * 101 + size * 3 + 11);
-	if (which == 1) return (unsigned char) ~(j * 37 + operand * 101 + size * 3 + 11);
+	/* not periodic in j: a block read from the wrong multiple of 128 / 256 / 4096 bytes must show */
+	if (which == 0) return (unsigned char) (j * 37 + (j >> 7) * 91 + (j >> 12) * 7 + operand * 101 + size * 3 + 11);
+	if (which == 1) return (unsigned char) ~(j * 37 + (j >> 7) * 91 + (j >> 12) * 7 + operand * 101 + size * 3 + 11);
 	return (unsigned char) (j + which);	/* rotations: every byte value at every position class */
 }
 
@@ -66,11 +67,14 @@ static const char *FN[] = {"of_add_to_symbol", "of_add_from_multiple_symbols", "
 
 static void one_case (int fnid, int size, int da, int sa, int cnt, int c, int pt)
 {
-	oper_t D[MAXOPER], Sx[MAXOPER];
-	unsigned char want[MAXOPER][1100], s0[MAXOPER][1100];
+	static oper_t D[MAXOPER], Sx[MAXOPER];
+	static unsigned char *want[MAXOPER], *s0[MAXOPER];
+	static int bufsz[MAXOPER];
 	void *ptrs[MAXOPER];
 	int nd = fnid == 2 ? cnt : 1, ns = fnid == 1 ? cnt : 1, i, j;
 	snprintf (vf_slot (), VF_SLOT_LEN, "fn=%s size=%d dalign=%d salign=%d count=%d c=%d pat=%d", FN[fnid], size, da, sa, cnt, c, pt);
+	for (i = 0; i < (nd > ns ? nd : ns); i++)
+		if (bufsz[i] < size + 1) { bufsz[i] = size < 1100 ? 1100 : size + 1; free (want[i]); free (s0[i]); want[i] = malloc ((size_t) bufsz[i]); s0[i] = malloc ((size_t) bufsz[i]); }
 	for (i = 0; i < nd; i++) { oper_new (&D[i], size, da); for (j = 0; j < size; j++) D[i].p[j] = pat (pt, 40 + i, j, size); if (fnid == 5) for (j = 0; j < size; j++) D[i].p[j] &= 15; }
 	for (i = 0; i < ns; i++) { oper_new (&Sx[i], size, sa); for (j = 0; j < size; j++) Sx[i].p[j] = pat (pt, i, j, size); if (fnid == 5) for (j = 0; j < size; j++) Sx[i].p[j] &= 15; memcpy (s0[i], Sx[i].p, (size_t) size); }
 	/* expected */
@@ -133,6 +137,44 @@ static void item (long it, void *arg)
 	vf_stat_add (st_states, 1);
 }
 
+/* long symbols and many operands: the regime of cache-blocked loops, wide unrolling and small counters.
+ * item = index into LONGS (sizes) or, beyond, into MANY (operand counts) */
+static int LONGS[96], NLONGS, MANY[64], NMANY;
+static void item_long (long it, void *arg)
+{
+	static const int AL[][2] = {{0, 0}, {1, 0}, {0, 1}, {3, 5}, {7, 7}, {4, 4}, {0, 4}, {6, 2}};
+	static const int CN[] = {0, 1, 2, 3, 4, 5, 7, 8, 9, 15, 16, 17, 20};
+	static const int CS[] = {0, 1, 2, 3, 0x53, 0x80, 0xff};
+	long n = 0;
+	int a, q, pt;
+	(void) arg;
+	vf_slot_set_prop ("C13");
+	if (it < NLONGS) {
+		int size = LONGS[it];
+		for (a = 0; a < 8; a++) for (pt = 0; pt < 2; pt++) {
+			int da = AL[a][0], sa = AL[a][1];
+			if (size > 20000 && a >= 4 && pt) continue;
+			one_case (0, size, da, sa, 1, 0, pt); n++;
+			for (q = 0; q < (int) (sizeof CN / sizeof CN[0]); q++) {
+				if (size > 20000 && CN[q] > 9 && CN[q] != 16) continue;
+				one_case (1, size, da, sa, CN[q], 0, pt); one_case (2, size, da, sa, CN[q], 0, pt); n += 2;
+			}
+			for (q = 0; q < (int) (sizeof CS / sizeof CS[0]); q++) {
+				one_case (3, size, da, sa, 1, CS[q], pt); one_case (4, size, da, sa, 1, CS[q], pt); n += 2;
+				one_case (5, size, da, sa, 1, CS[q] & 15, pt); one_case (6, size, da, sa, 1, CS[q] & 15, pt); n += 2;
+			}
+		}
+	} else {
+		static const int SZ[] = {0, 1, 7, 8, 9, 16, 33, 64, 100, 129};
+		int cnt = MANY[it - NLONGS];
+		for (q = 0; q < (int) (sizeof SZ / sizeof SZ[0]); q++) for (a = 0; a < 4; a++) for (pt = 0; pt < 2; pt++) {
+			one_case (1, SZ[q], AL[a][0], AL[a][1], cnt, 0, pt); one_case (2, SZ[q], AL[a][0], AL[a][1], cnt, 0, pt); n += 2;
+		}
+	}
+	vf_stat_add (st_trans, n);
+	vf_stat_add (st_states, 1);
+}
+
 static void item_replay (long it, void *arg)
 {
 	char fn[64]; int size, da, sa, cnt, c, pt, f;
@@ -154,13 +196,23 @@ int main (int argc, char **argv)
 	for (s = 0; s <= 80; s++) SIZES[NSIZES++] = s;
 	for (s = 256; s <= 272; s++) SIZES[NSIZES++] = s;
 	if (g_thorough) { for (s = 81; s <= 255; s++) SIZES[NSIZES++] = s; for (s = 1024; s <= 1040; s++) SIZES[NSIZES++] = s; }
+	{	/* long sizes: powers of two and neighbours up to 64 KiB, and a few in between */
+		static const int base[] = {96, 100, 127, 128, 129, 191, 192, 193, 255, 383, 384, 385, 500, 1000, 1500, 3000, 5000, 10000, 70001};
+		int e, d;
+		for (a = 0; a < (int) (sizeof base / sizeof base[0]); a++) LONGS[NLONGS++] = base[a];
+		for (e = 9; e <= 16; e++) for (d = -1; d <= 1; d++) if (g_thorough || e <= 13 || e == 16) LONGS[NLONGS++] = (1 << e) + d;
+		if (g_thorough) { LONGS[NLONGS++] = 131071; LONGS[NLONGS++] = 131072; LONGS[NLONGS++] = 131073; LONGS[NLONGS++] = 1 << 20; }
+		for (a = 21; a <= 40; a++) MANY[NMANY++] = a;
+		{ static const int m[] = {63, 64, 65, 127, 128, 129, 255, 256, 257, 300}; for (a = 0; a < 10; a++) MANY[NMANY++] = m[a]; }
+	}
 	if (vf_replay_case ()) { vf_pool_run (1, item_replay, NULL, 60); vf_finish (); return 0; }
 	vf_pool_run (NSIZES, item, NULL, 0);
+	vf_pool_run (NLONGS + NMANY, item_long, NULL, 0);
 	vf_stat_add (st_exec, vf_stat_get (st_trans));
 	vf_stat_add (st_dn, vf_stat_get (st_trans));
 	vf_sample ("of_add_from_multiple_symbols size=13 dalign=3 salign=5 count=11 pattern 0: result equals byte-wise XOR of 11 operands, guards intact");
 	vf_sample ("of_galois_field_2_4_addmul1_compact size=7 c=9: every byte = (9*hi)<<4 | 9*lo XORed into the destination");
-	vf_outcome ("sizes", NSIZES); vf_outcome ("kernel_calls", vf_stat_get (st_trans));
+	vf_outcome ("sizes", NSIZES); vf_outcome ("long_sizes", NLONGS); vf_outcome ("large_operand_counts", NMANY); vf_outcome ("kernel_calls", vf_stat_get (st_trans));
 	vf_finish ();
 	return 0;
 }
